@@ -94,12 +94,22 @@ pub trait Scanner: Copy + PartialEq + Debug + Send + Sync + 'static {
     const POLLS: bool = false;
     /// a new scanner (the timeout only matters for the polling scanner)
     fn make(timeout_ms: u64) -> Self;
+    /// a new scanner with a timeout given in nanoseconds
+    fn make_ns(timeout_ns: u64) -> Self {
+        Self::make(timeout_ns / 1_000_000)
+    }
     fn poll_ch(&mut self, _ch: u8) -> Option<Tup> {
         None
     }
 }
 
 /// Set the mock clock (no-op in configurations without the polling scanner).
+/// mock clock in ticks of `_tick_ns` nanoseconds
+pub fn set_clock_ticks(_now: u64, _tick_ns: u64) {
+    #[cfg(feature = "polling")]
+    helgoboss_midi::verif_hooks::set_now_ticks(_now, _tick_ns);
+}
+
 pub fn set_clock(_now: u64) {
     #[cfg(feature = "polling")]
     helgoboss_midi::verif_hooks::set_now_millis(_now);
@@ -223,6 +233,9 @@ impl Scanner for PollingParameterNumberMessageScanner {
     const POLLS: bool = true;
     fn make(t: u64) -> Self {
         Self::new(core::time::Duration::from_millis(t))
+    }
+    fn make_ns(t: u64) -> Self {
+        Self::new(core::time::Duration::from_nanos(t))
     }
     fn poll_ch(&mut self, c: u8) -> Option<Tup> {
         let c = ch(c);
